@@ -24,6 +24,31 @@ fn main() {
             }
         }
     });
+    // Hang monitor: a build() that does not return is a violation of C07 (totality) when C07 is what is being
+    // checked, and a machinery error (no verdict) for every other property. Child processes of the C07 families
+    // have their own budgets and are exempt.
+    if id.starts_with('C') && !id.contains("child") {
+        let limit: u64 = std::env::var("VERIF_CASE_TIMEOUT_S").ok().and_then(|s| s.parse().ok()).unwrap_or(if tier == "thorough" { 900 } else { 150 });
+        let (pid, ptier) = (id.to_string(), tier.to_string());
+        std::thread::spawn(move || loop {
+            std::thread::sleep(std::time::Duration::from_secs(2));
+            if let Some((age, tcs, cfg)) = vh::cfgs::inflight::stuck(limit) {
+                if pid == "C07" {
+                    let root = vh::ev::root();
+                    let dir = format!("{root}/replays/C07");
+                    let _ = std::fs::create_dir_all(&dir);
+                    let path = format!("{dir}/hang_{:016x}.json", vh::ev::hash_case(&tcs, &cfg));
+                    let v = vh::ev::Violation { property: "C07".into(), kind: "panic".into(), sig: "build() did not return".into(), tcs: tcs.clone(), cfg, out: String::new(), detail: serde_json::json!({"running_for_s": age, "limit_s": limit}) };
+                    let _ = std::fs::write(&path, serde_json::to_string_pretty(&v.to_json()).unwrap() + "\n");
+                    println!("VIOLATION property=C07 replay={path}");
+                    println!("  signature: build() did not return within {limit} s  input={:?} settings={}", tcs, cfg.name());
+                    std::process::exit(1);
+                }
+                eprintln!("MACHINERY-ERROR: {pid} {ptier}: a build() has been running for {age} s (limit {limit}); input={:?} settings={} -- no verdict for {pid}; totality is C07's business", tcs, cfg.name());
+                std::process::exit(2);
+            }
+        });
+    }
     let mc = |f: fn(&Ctx)| {
         let ctx = Ctx::new(id, tier, "model_checking");
         f(&ctx);
